@@ -296,6 +296,7 @@ func (d *dump) key() string {
 //  3. among the remaining ones (cycles) the entry whose cell names X as its
 //     home package is the definition, then 2 again; what still remains are
 //     definitions.
+//
 // A cell held by its home package H and, unexplained, by another package Y is
 // ambiguous: either Y had the definition and H redefined it through inheritance
 // (slip then renames the cell's home), or H has it and Y kept a copy that no
